@@ -15,3 +15,10 @@ try:
 finally:
     _sys.modules["z3"] = _z3
 assert not _smt.has_solver
+
+# amoco logs every rejected decode / ignored assignment to stderr: silence it in the verifier
+try:
+    from amoco.config import conf as _conf
+    _conf.Log.level = "CRITICAL"
+except Exception:
+    pass
